@@ -11,6 +11,9 @@ func init() {
 	families["cachedexh"] = famCachedExh
 }
 
+// rememberTail: remember most of the last 40 additions of a block (many-tree histories).
+var rememberTail bool
+
 // rememberMask, when >= 0, fixes the remember subset of the next block (bit i = add i).
 var rememberMask = -1
 
@@ -21,6 +24,9 @@ func (s *Sim) clientUpdate(addHashes []u.Hash, blockTargets []uint64, ud u.Updat
 	var rem []uint32
 	for i := range addHashes {
 		pick := s.g.Intn(3) == 0
+		if rememberTail && i >= len(addHashes)-40 {
+			pick = s.g.Intn(3) != 0 // the right edge of a many-tree forest is mostly remembered
+		}
 		if rememberMask >= 0 {
 			pick = rememberMask>>uint(i)&1 == 1
 		}
@@ -186,10 +192,16 @@ func famCached(g *Gen, tier string, shard, nshards int) {
 	if tier == "thorough" {
 		nHist, maxBlocks, maxAdds = 150, 50, 30
 	}
+	defer func() { rememberTail = false }()
 	for h := 0; h < nHist; h++ {
 		s := newSim(g, nil)
 		s.client = &LightClient{}
 		nBlocks := 2 + g.Intn(maxBlocks)
+		manyTrees := h%3 == 2
+		if manyTrees {
+			nBlocks = 3 + g.Intn(4) // big forests: keep these histories short
+		}
+		rememberTail = manyTrees
 		for b := 0; b < nBlocks; b++ {
 			mode := g.Intn(8)
 			nAdds := 0
@@ -203,12 +215,33 @@ func famCached(g *Gen, tier string, shard, nshards int) {
 			}
 			if b == 0 {
 				mode, nAdds = 0, 1+g.Intn(maxAdds*2)
+				// one history in six starts with a forest of many trees (9 or more roots):
+				// tree indexes beyond 7 and positions on high rows are otherwise never reached
+				if h%3 == 2 {
+					nAdds = []int{511, 1022, 1023, 2046, 767, 1535, 1021, 509}[g.Intn(8)]
+				}
 			}
 			if g.Intn(5) == 0 { // empty whole trees, then overwrite the empty roots
 				mode, nAdds = 5, 1+g.Intn(5)
 			}
-			s.applyBlock(s.pickDeletions(mode), nAdds)
-			if len(s.hist) > 0 && g.Intn(5) == 0 {
+			dels := s.pickDeletions(mode)
+			if manyTrees && b > 0 && g.Intn(4) != 0 {
+				// deletions among the small trees at the right edge
+				live := s.liveIdx()
+				dels = nil
+				for i := len(live) - 1; i >= 0 && i >= len(live)-24; i-- {
+					if g.Intn(2) == 0 {
+						dels = append([]int{live[i]}, dels...)
+					}
+				}
+				// mostly no additions, so that the leaf count keeps its many one-bits
+				nAdds = 0
+				if g.Intn(4) == 0 {
+					nAdds = 1 + g.Intn(2)
+				}
+			}
+			s.applyBlock(dels, nAdds)
+			if len(s.hist) > 0 && (g.Intn(5) == 0 || (manyTrees && g.Intn(2) == 0)) {
 				k := 1 + g.Intn(min(len(s.hist), 4))
 				if g.Intn(6) == 0 {
 					k = len(s.hist)
